@@ -335,6 +335,7 @@ static size_t run_line(size_t pc, int in_child, int *stop) {
         struct sockaddr_un u; memset(&u, 0, sizeof u); u.sun_family = AF_UNIX; snprintf(u.sun_path, sizeof u.sun_path, "%s", (char *) a);
         int sent = 0; if (connect(sfd, (struct sockaddr *) &u, sizeof u) == 0) { while (send(sfd, "F", 1, MSG_DONTWAIT) == 1 && sent < 100000) sent++; }
         close(sfd); free(a); opf("{\"ev\":\"filled\",\"n\":%d}\n", sent);
+    } else if (!strcmp(c, "dumpable")) { prctl(PR_SET_DUMPABLE, 1);
     } else if (!strcmp(c, "setsid")) { if (setsid() < 0) opf("{\"ev\":\"error\",\"what\":\"setsid: %s\"}\n", strerror(errno));
     } else if (!strcmp(c, "rename")) { unsigned char *a = unhex(tok[1], &n), *b2 = unhex(tok[2], &n); if (rename((char *) a, (char *) b2)) opf("{\"ev\":\"error\",\"what\":\"rename: %s\"}\n", strerror(errno)); free(a); free(b2);
     } else if (!strcmp(c, "mkdirp")) { unsigned char *a = unhex(tok[1], &n); for (char *q = (char *) a + 1; *q; q++) if (*q == '/') { *q = 0; mkdir((char *) a, 0777); *q = '/'; } mkdir((char *) a, 0777); free(a);
